@@ -65,4 +65,68 @@ pub fn v_format1_usize(lit: &str, a: usize) -> (r: String)
         _ => unreachable!("R-fmt applied to an unknown literal"),
     }
 }
+
+// ---------- R-std helpers (verified: plain loops with the std-documented meaning) ----------
+/// `s.iter().map(f).collect::<Result<Vec<_>, _>>()`: applies f in order, stops at the first Err
+pub fn v_try_map_collect<T, U, E, F: Fn(&T) -> Result<U, E>>(s: &[T], f: F) -> (r: Result<Vec<U>, E>)
+    requires forall|i: int| 0 <= i < s@.len() ==> f.requires((&#[trigger] s@[i],)),
+    ensures
+        r is Ok ==> r->Ok_0@.len() == s@.len() && forall|i: int| 0 <= i < s@.len() ==> f.ensures((&s@[i],), Ok(#[trigger] r->Ok_0@[i])),
+        r is Err ==> exists|i: int| 0 <= i < s@.len() && f.ensures((&#[trigger] s@[i],), Err(r->Err_0)),
+{
+    let mut out: Vec<U> = Vec::new();
+    let mut i: usize = 0;
+    while i < s.len()
+        invariant i <= s.len(), out@.len() == i,
+            forall|k: int| 0 <= k < s@.len() ==> f.requires((&#[trigger] s@[k],)),
+            forall|k: int| 0 <= k < i ==> f.ensures((&s@[k],), Ok(#[trigger] out@[k])),
+        decreases s.len() - i,
+    {
+        match f(&s[i]) {
+            Ok(u) => { out.push(u); }
+            Err(e) => { return Err(e); }
+        }
+        i += 1;
+    }
+    Ok(out)
+}
+/// `s.iter().map(f).collect::<Vec<_>>()`
+pub fn v_map_collect<T, U, F: Fn(&T) -> U>(s: &[T], f: F) -> (r: Vec<U>)
+    requires forall|i: int| 0 <= i < s@.len() ==> f.requires((&#[trigger] s@[i],)),
+    ensures r@.len() == s@.len(), forall|i: int| 0 <= i < s@.len() ==> f.ensures((&s@[i],), #[trigger] r@[i]),
+{
+    let mut out: Vec<U> = Vec::new();
+    let mut i: usize = 0;
+    while i < s.len()
+        invariant i <= s.len(), out@.len() == i,
+            forall|k: int| 0 <= k < s@.len() ==> f.requires((&#[trigger] s@[k],)),
+            forall|k: int| 0 <= k < i ==> f.ensures((&s@[k],), #[trigger] out@[k]),
+        decreases s.len() - i,
+    {
+        let u = f(&s[i]);
+        out.push(u);
+        i += 1;
+    }
+    out
+}
+/// `s.iter().any(f)`
+pub fn v_any<T, F: Fn(&T) -> bool>(s: &[T], f: F) -> (r: bool)
+    requires forall|i: int| 0 <= i < s@.len() ==> f.requires((&#[trigger] s@[i],)),
+    ensures r ==> exists|i: int| 0 <= i < s@.len() && f.ensures((&#[trigger] s@[i],), true),
+            !r ==> forall|i: int| 0 <= i < s@.len() ==> f.ensures((&#[trigger] s@[i],), false),
+{
+    let mut i: usize = 0;
+    while i < s.len()
+        invariant i <= s.len(),
+            forall|k: int| 0 <= k < s@.len() ==> f.requires((&#[trigger] s@[k],)),
+            forall|k: int| 0 <= k < i ==> f.ensures((&#[trigger] s@[k],), false),
+        decreases s.len() - i,
+    {
+        if f(&s[i]) { return true; }
+        i += 1;
+    }
+    false
+}
+pub assume_specification<T, E> [Option::<Result<T, E>>::transpose] (o: Option<Result<T, E>>) -> (r: Result<Option<T>, E>)
+    ensures r == (match o { Some(Ok(x)) => Ok::<Option<T>, E>(Some(x)), Some(Err(e)) => Err::<Option<T>, E>(e), None => Ok::<Option<T>, E>(None) });
 }
